@@ -221,7 +221,7 @@ func runC07(c *ShardCtx) {
 			return
 		}
 		// accepted grammars must terminate on the real parser whenever the reference does
-		if !rejected && idx%16 == 3 {
+		if !rejected && (forceBuild || idx%16 == 3) {
 			if b := buildOrCount(c, text, core.Gen{}); b != nil {
 				for _, in := range inputs {
 					o := rtapi.RunOpts{MaxExpr: 5000}
